@@ -492,7 +492,8 @@ def _activate_plugin_worlds() -> Iterator[None]:
                 if isinstance(prim, jcore_ext.Primitive):
                     leaf_prims.append(prim)
         backfill_missing_transpose_rules(leaf_prims)
-        yield
+        with ps2.isolated_trace_cache():
+            yield
 
 
 @contextmanager
